@@ -590,7 +590,7 @@ def failure_key(job, r):
         # the identity of a no-termination finding is the sampler and the option values only: WHERE the cap happened
         # to land (which loop, which frame the wall clock sampled) depends on load and goes into the description
         return (f"C20:no-termination:{sampler}:{label}",
-                f"{sampler} run with {label}: {st} ({r.get('exc_msg', 'wall-clock cap')}) in {loop}; "
+                f"{sampler} run with {label}: {st} ({r.get('exc_msg', 'CPU-time budget used up')}) in {loop}; "
                 f"loop stats {r.get('loop_stats')}")
     if st == "raised":
         msg = r.get("exc_msg", "")
